@@ -234,6 +234,18 @@ def discharge_value_source(site):
         if kinds == ["f64", "i64", "u64"] and all(site.bb in v.reachable(bb) for bb, _ in tests):
             if not arbitrary_precision_enabled():
                 return "C12.JSONNUM", "after as_u64/as_i64/as_f64 all failed; serde_json's arbitrary_precision is not enabled in the workspace"
+    # the same ladder written with Option combinators: the panic is the last resort of a chain, in a closure of the function
+    # that consults all three accessors (itself or in sibling closures of the same chain)
+    if site.kind == "panic" and b.kind == "Closure" and "serde_json::Value" in (b.impl_self_str() or "") :
+        kinds = set()
+        for ob_ in b.crate.bodies:
+            if ob_.root == b.root:
+                ov = View(ob_)
+                for _bb, c in ov.calls():
+                    if c.fn is not None and c.path.startswith("serde_json::Number::") and c.name in ("is_u64", "is_i64", "is_f64", "as_u64", "as_i64", "as_f64"):
+                        kinds.add(c.name.split("_")[1])
+        if kinds == {"u64", "i64", "f64"} and not arbitrary_precision_enabled():
+            return "C12.JSONNUM", "last resort of a chain that consulted as_u64 / as_i64 / as_f64 (one of them answers for every Number without arbitrary_precision)"
     return None
 
 
